@@ -119,6 +119,24 @@ func streamKeys(c *ctx) {
 			delete(fonly, iana.KeyParameterKid)
 			variants["private+wrong-foreign-point-no-kid"] = fonly
 		}
+		// the embedded point in compressed form (x, sign bit of y): the right one, and another key pair's
+		{
+			comp := cloneKey(withXY)
+			comp[iana.EC2KeyParameterY] = priv.Y.Bit(0) == 1
+			variants["private+compressed-xy"] = comp
+			d3 := new(big.Int).Add(d, big.NewInt(int64(1001+c.r.intn(1000))))
+			gx, gy := a.curve.ScalarBaseMult(d3.Bytes())
+			fcomp := cloneKey(withXY)
+			fcomp[iana.EC2KeyParameterX] = gx.FillBytes(make([]byte, a.size))
+			fcomp[iana.EC2KeyParameterY] = gy.Bit(0) == 1
+			variants["private+wrong-compressed-foreign-x"] = fcomp
+			fsign := cloneKey(comp)
+			fsign[iana.EC2KeyParameterY] = priv.Y.Bit(0) != 1
+			variants["private+wrong-compressed-sign"] = fsign
+			typed := cloneKey(k)
+			typed[iana.KeyParameterKeyOps] = key.Ops{iana.KeyOperationSign, iana.KeyOperationVerify}
+			variants["private+typed-ops"] = typed
+		}
 		// a coordinate that is only a suffix of the true one, or the true one behind other octets: another integer
 		suf := cloneKey(withXY)
 		suf[iana.EC2KeyParameterX] = xFull[2:]
@@ -148,7 +166,11 @@ func streamKeys(c *ctx) {
 			}
 		}
 		for name, v := range variants {
+			beforeV := qMap(v)
 			pk, err := ecdsa.ToPublicKey(v)
+			if qMap(v) != beforeV {
+				fail("key-immutable", "deriving the public key changed the private key ("+name+")", beforeV, qMap(v), "unchanged")
+			}
 			c.addCase(fmt.Sprintf("EcPub %s %s %s", o.coq(), qMap(v), optMap(pk, err)), short(fmt.Sprintf("ecdsa.ToPublicKey|%s|%s => err=%v", name, describe(v), err)))
 			_, serr := ecdsa.NewSigner(v)
 			c.addCase(fmt.Sprintf("EcSigner %s %s %s", o.coq(), qMap(v), qB(serr == nil)), short(fmt.Sprintf("ecdsa.NewSigner|%s|%s => err=%v", name, describe(v), serr)))
@@ -280,8 +302,34 @@ func streamKeys(c *ctx) {
 		withOps := cloneKey(ek)
 		withOps[iana.KeyParameterKeyOps] = key.Ops{iana.KeyOperationSign, iana.KeyOperationVerify}
 		evariants["private+ops"] = withOps
+		noKid := cloneKey(ek)
+		delete(noKid, iana.KeyParameterKid)
+		evariants["private-no-kid"] = noKid
+		noKidOps := cloneKey(noKid)
+		noKidOps[iana.KeyParameterKeyOps] = key.Ops{iana.KeyOperationSign, iana.KeyOperationVerify}
+		evariants["private-no-kid+ops"] = noKidOps
 		for name, v := range evariants {
+			before := qMap(v)
 			pk, err := ed25519.ToPublicKey(v)
+			if qMap(v) != before {
+				fail("key-immutable", "deriving the public key changed the private key ("+name+")", before, qMap(v), "unchanged")
+			}
+			if err == nil {
+				// the derived key is a key of its own: it passes CheckKey, yields a verifier, and carries the optional
+				// members of the private key (kid) only when the private key has them
+				if cerr := ed25519.CheckKey(pk); cerr != nil {
+					fail("key-public", "the derived Ed25519 public key does not pass CheckKey ("+name+")", describe(v), cerr, "a valid key")
+				}
+				if _, verr := ed25519.NewVerifier(pk); verr != nil {
+					fail("key-public", "the derived Ed25519 public key yields no verifier ("+name+")", describe(v), verr, "a verifier")
+				}
+				if hasLabel(pk, iana.KeyParameterKid) != hasLabel(v, iana.KeyParameterKid) {
+					fail("key-public", "the derived Ed25519 public key does not mirror the optional kid of the private key ("+name+")", describe(v), describe(pk), "kid present iff the private key has one")
+				}
+				if _, serr := ed25519.NewSigner(v); serr != nil {
+					fail("key-immutable", "the private key no longer yields a signer after its public key was derived ("+name+")", describe(v), serr, "a signer")
+				}
+			}
 			c.addCase(fmt.Sprintf("EdPub %s %s %s", eo.coq(), qMap(v), optMap(pk, err)), short(fmt.Sprintf("ed25519.ToPublicKey|%s|%s => err=%v", name, describe(v), err)))
 			c.nontriv(fmt.Sprintf("edpub|%s|%v", name, err == nil))
 			if (err == nil) != (name != "private+wrong-x") {
